@@ -540,7 +540,7 @@ class Hdf5Saver:
         if obj_reduce is not None:
             rv = obj_reduce()
             if isinstance(rv, str):
-                h5gr = self.save_global(obj, REPR_GLOBAL)
+                h5gr = self.save_global(obj, path, REPR_GLOBAL)
                 return h5gr
             if not isinstance(rv, tuple) or not 2 <= len(rv) < 7:
                 raise Hdf5ExportError(f'Wrong return value of {obj_reduce!r}')
